@@ -327,7 +327,7 @@ func first(a, _ []byte) []byte { return a }
 // class must have been zeroed and relinked before it is pooled (C12; the
 // obligations put_zero / put_unlinked are generated at every Put site).
 
-//@ spec refIs(ref, n, k) = (*ref).pointer == n && (*ref).tag == k && ref.obj != n && allocated(ref.obj) && ref.obj != nil && inT(n) && !pooled(n)
+//@ spec refIs(ref, n, k) = (*ref).pointer == n && (*ref).tag == k && ref.obj != n && allocated(ref.obj) && ref.obj != nil && atype(ref.obj) != 1000 && inT(n) && !pooled(n)
 
 //@ func (*node256).addChild
 //@   opt noalloc
@@ -403,7 +403,7 @@ func first(a, _ []byte) []byte { return a }
 //@   ensures[replaced_iff_full] ((*ref).pointer == n4) == (old(n4.childrenLen) < 4)
 //@   ensures[frame] frame(n4, ref.obj, (*ref).pointer) && frameSlot(ref)
 
-//@ spec slotOK(ptr) = ptr.obj != (*ptr).pointer && allocated(ptr.obj) && ptr.obj != nil && inT((*ptr).pointer) && !pooled((*ptr).pointer)
+//@ spec slotOK(ptr) = ptr.obj != (*ptr).pointer && allocated(ptr.obj) && ptr.obj != nil && atype(ptr.obj) != 1000 && inT((*ptr).pointer) && !pooled((*ptr).pointer)
 
 //@ func (*nodeRef).addChild
 //@   assigns SP ST B node.prefixLen node.childrenLen node4.keys pooled
